@@ -79,6 +79,9 @@ def exclTags (ps : PState) (toks : List String) : List String × Bool :=
     ((if op == "div" && (dt == some "f32" || dt == some "f64") then ["F30"] else []) ++
      (if f31 then ["F31"] else []) ++ (if f10 then ["F10"] else []) ++ (if f32 then ["F32"] else []) ++
      (if f33 then ["F33"] else []), true)
+  | "un" :: op :: _ :: rest =>
+    -- F34: Apply with a reuse / incr tensor maps the function over the destination's own data
+    ((if op == "apply" && rest.any (fun t => t.startsWith "reuse=" || t.startsWith "incr=") then ["F34"] else []), true)
   | ["calcS", v, spec] =>
     match ps.obj v, parseSlList spec with
     | some (_, t), some sls =>
